@@ -9,6 +9,7 @@ import GunYu.Model.Rdb.Replay
 import GunYu.Proofs.Rdb.Crc64
 import GunYu.Proofs.Rdb.Read
 import GunYu.Proofs.Rdb.Chunk
+import GunYu.Proofs.Rdb.StreamNode
 
 namespace GunYu.Props.C03
 open GunYu GunYu.Rdb GunYu.RedisSem
@@ -242,6 +243,31 @@ theorem fanOut_same_key (n : Nat) (e1 e2 : Entry) (i1 i2 : Nat) (h : e1.key = e2
   have h2 : e2.key.length > 0 := by rw [← h]; exact h1
   simp [workerOf, h2, h]
 
+/-! ## Streams (partial: the entries)
+
+The statement still open for streams is the full `expand_roundtrip` (entries AND
+last id, counters, consumer groups, PELs replayed through XSETID / XGROUP /
+XCLAIM into the oracle). -/
+
+/-- full round trip of a stream value — not yet proved (listed `partial`) -/
+def stream_roundtrip_stmt : Prop :=
+  ∀ (x : XCfg) (k : Bytes) (s : StreamE), s.wf →
+    ∃ cmds v, execStream x s.rtype k s.ser = some cmds ∧ applyCmds [] cmds = some [(k, .stream v, 0)]
+
+/-- `stream_roundtrip_partial` — the entries: every listpack node of a stream
+    (any listpack integer width for counters, flags and id deltas, elements as
+    strings or integers, SAMEFIELDS entries interleaved with entries that carry
+    their own fields, deleted entries, blob saved raw or LZF) expands into
+    exactly one `XADD key id field value …` per live entry, in order, with
+    id = master id + stored deltas and the entry's own field/value list — the
+    master entry's field count is never disturbed (D11 repaired), ids are exact
+    up to 2^64-1. -/
+theorem stream_roundtrip_partial (key : Bytes) (nodes : List SNodeE) (rest : Bytes)
+    (hwf : ∀ n ∈ nodes, n.wf ∧ ∀ e ∈ n.entries, e.idWf n.masterMs n.masterSeq) :
+    streamNodes key nodes.length (nodes.flatMap SNodeE.enc ++ rest) =
+      some (nodes.flatMap (fun n => n.live.map (fun p => cmdB b!"XADD" (key :: p.1 :: p.2))), rest) :=
+  streamNodes_spec key nodes rest hwf
+
 /-! ## The two replay paths -/
 
 /-- RESTORE path: an unsplit value whose payload fits `MaxProtoBulkLen` is sent
@@ -356,6 +382,24 @@ example : exSet.wf ∧ exSet.kind ≠ .other ∧ exSet.nonempty ∧ exSet.member
 def exQl2 : ObjE := .listQuick2 .b6 [.plain (.int8 (-5)), .packed (SE.plain (lpBlob [.i64 (-1), .s12 [120]])) [.i64 (-1), .s12 [120]]]
 example : exQl2.wf ∧ exQl2.kind ≠ .other ∧ exQl2.nonempty ∧ exQl2.members.Nodup := by decide
 example : exQl2.value = .list [[45, 53], [45, 49], [120]] := by decide
+-- a stream node: master 1-1 with fields a b; entries 1-1 {a 1 b 2} (same fields), 1-2 {c 3}, deleted 1-3, 1-4 {a 4 b 5}
+def exEntries : List SEntryE :=
+  [{ deleted := false, same := true, msDelta := .u7 0, seqDelta := .u7 0, items := [.u7 1, .u7 2] },
+   { deleted := false, same := false, msDelta := .u7 0, seqDelta := .u7 1, items := [.s6 [99], .u7 3] },
+   { deleted := true, same := true, msDelta := .u7 0, seqDelta := .i13 2, items := [.u7 7, .u7 7] },
+   { deleted := false, same := true, msDelta := .u7 0, seqDelta := .i16 3, items := [.u7 4, .u7 5] }]
+def exNode0 : SNodeE :=
+  { w := SE.plain [], masterMs := 1, masterSeq := 1, masterFields := [.s6 [97], .s6 [98]], entries := exEntries }
+def exNode : SNodeE := { exNode0 with w := SE.plain exNode0.blob }
+example : exNode.wf := by decide +kernel
+example : ∀ e ∈ exNode.entries, e.idWf exNode.masterMs exNode.masterSeq := by
+  intro e he
+  have he' : e ∈ exEntries := he
+  simp only [exEntries, List.mem_cons, List.mem_nil_iff, or_false] at he'
+  rcases he' with rfl | rfl | rfl | rfl <;>
+    exact ⟨_, _, rfl, rfl, by decide, by decide, by decide, by decide⟩
+example : exNode.live = [([49,45,49], [[97],[49],[98],[50]]), ([49,45,50], [[99],[51]]), ([49,45,52], [[97],[52],[98],[53]])] := by
+  decide +kernel
 -- TTL: expiry 1000 ms ahead / already past
 example : ttlOf 5000 6000 = 1000 ∧ ttlOf 5000 4000 = 1 ∧ ttlOf 5000 0 = 0 := by decide
 
